@@ -1,6 +1,8 @@
 """C13 — directory enumeration is complete, duplicate-free and terminates."""
 import seqlib
+import conclib
 import vlib
+from vlib import Break
 
 MODULE = "GoNfsd.Props.C13"
 
@@ -8,11 +10,27 @@ MODULE = "GoNfsd.Props.C13"
 def run(ctx):
     ok_go, ok_drv = seqlib.build_and_prove(ctx, MODULE)
     if ok_go:
-        args = ["-seqs", "40", "-ops", "400"] if ctx.tier == "thorough" else ["-seqs", "8", "-ops", "300"]
+        args = ["-seqs", "40", "-ops", "400", "-locks"] if ctx.tier == "thorough" else ["-seqs", "8", "-ops", "300", "-locks"]
         lines, tr = seqlib.run_seq(ctx, args)
         if lines is not None:
             seqlib.analyse(ctx, lines, tr, ok_drv, "C13", relevant_ops={"readdir", "readdirplus"})
             ctx.cov["listings_compared"] = len([l for l in lines if l.startswith("readdir")])
+            # "while the directory changes": a listing and an update of one directory are ordered by the directory's lock, held from
+            # the first read of a directory block to the commit. A request that gives the lock back and goes on with the block images
+            # it has read (the journal keeps them for the whole transaction) writes stale slots back: checked on every transaction.
+            if ok_drv:
+                try:
+                    lm = conclib.check_locks(ctx, lines, "C13", "sequential")
+                    tp = [x for x in lm if "two-phase" in x]
+                    if lm:
+                        ctx.breaks.append(Break("correspondence", "recorded transactions are not two-phase (%d)" % len(tp), "\n".join(lm[:8])))
+                    for x in tp[:2]:
+                        parts = x.split(" :: ")
+                        ctx.add_violation("not-two-phase:" + parts[1].split()[1], "a directory's lock is given back before the commit point: " + parts[-1][:200],
+                                          {"how": "lock/commit events of one request recorded by the fstxn hooks (harness seq -locks)", "trace": parts[-1],
+                                           "trace_prefix": seqlib.context_before(lines, "# " + " :: ".join(parts[1:]))})
+                except Break as b:
+                    ctx.breaks.append(b)
     vlib.finish(
         ctx, "proof",
         "theorems for the paging function with ARBITRARY budgets (hence READDIR and READDIRPLUS): a page is sound, non-empty whenever an entry remains, "
